@@ -965,8 +965,16 @@ func TestVF_C33_Node(t *testing.T) {
 var vfC33NumToks = []string{"0", "1", "2", "3", "5", "10", "-1", "-2", "-0", "+1", "007", "18446744073709551615", "18446744073709551616",
 	"9223372036854775807", "9223372036854775808", "-9223372036854775808", "99999999999999999999999", "", " 1", "1 ", "1e3", "0x10", "١"}
 
+// vfC33Bounds are integer boundary numerals: length/offset fields are parsed with Atoi/ParseUint and then used in
+// slice expressions and "+1" arithmetic, so the machine-word limits are the magic values (seeded change S-C33-1:
+// an overflow in a bounds check that only prev_payload_length == MaxInt64 exposes).
+var vfC33Bounds = []string{"9223372036854775807", "9223372036854775806", "9223372036854775808", "-9223372036854775808", "-9223372036854775807",
+	"18446744073709551615", "18446744073709551614", "18446744073709551616", "2147483647", "2147483648", "4294967295", "4294967296", "-2147483648"}
+
 func vfC33Tok(rt *rapid.T, label string) string {
-	switch rapid.IntRange(0, 3).Draw(rt, label+"_k") {
+	switch rapid.IntRange(0, 4).Draw(rt, label+"_k") {
+	case 4:
+		return rapid.SampledFrom(vfC33Bounds).Draw(rt, label+"_bound")
 	case 0:
 		return rapid.SampledFrom(vfC33NumToks).Draw(rt, label+"_num")
 	case 1:
@@ -1020,7 +1028,9 @@ func vfC33MutateNumber(rt *rapid.T, f []byte, label string) []byte {
 	r := runs[rapid.IntRange(0, len(runs)-1).Draw(rt, label+"_run")]
 	old := string(f[r.a:r.b])
 	var repl string
-	switch rapid.IntRange(0, 4).Draw(rt, label+"_how") {
+	switch rapid.IntRange(0, 6).Draw(rt, label+"_how") {
+	case 5, 6:
+		repl = rapid.SampledFrom(vfC33Bounds).Draw(rt, label+"_bound")
 	case 0:
 		repl = "-" + old
 	case 1, 2:
@@ -1078,7 +1088,23 @@ func vfC33Mutate(rt *rapid.T, f []byte, label string) ([]byte, string) {
 }
 
 func vfC33Hostile(rt *rapid.T) ([]byte, string) {
-	switch rapid.IntRange(0, 9).Draw(rt, "strategy") {
+	switch rapid.IntRange(0, 10).Draw(rt, "strategy") {
+	case 10:
+		// structurally valid positioned / delta frame whose numeric fields are drawn from small and boundary integers
+		num := func(l string) string {
+			if rapid.Bool().Draw(rt, l+"_b") {
+				return rapid.SampledFrom(vfC33Bounds).Draw(rt, l+"_bound")
+			}
+			return strconv.Itoa(rapid.IntRange(-2, 6).Draw(rt, l+"_small"))
+		}
+		prev := string(vfC33Payload(rt, "eprev"))
+		pl := string(vfC33Payload(rt, "epayload"))
+		ep := vfC33Epoch(rt, "eepoch")
+		if rapid.IntRange(0, 3).Draw(rt, "ekind") == 0 {
+			return []byte("__p1:" + num("eoff") + ":" + ep + "__" + pl), "extreme_numbers"
+		}
+		pfx := rapid.SampledFrom([]string{"__d1:", "__d1:", "__d1:", "d1:"}).Draw(rt, "epfx")
+		return []byte(pfx + num("eoff") + ":" + ep + ":" + num("eplen") + ":" + prev + ":" + num("elen") + ":" + pl), "extreme_numbers"
 	case 0:
 		return rapid.SliceOfN(rapid.Byte(), 0, 40).Draw(rt, "raw"), "raw"
 	case 1:
